@@ -33,16 +33,24 @@ def run(tier, seed):
             sc.write("ST_neg%s.tla" % kind, mod)
             jobs.append(("NEG Generator(%s)" % kind, sc, "ST_neg" + kind, generator.cfg_mc(cfg), dict(workers=2, timeout=1800)))
         for nm, clear in (("ST_cc", True), ("ST_negcc", False)):
-            mod, cfg = condcache.mc_text(nm, clear)
+            mod, cfg = condcache.mc_text(nm, clear, "mcquick")
             sc.write(nm + ".tla", mod)
             jobs.append((("NEG " if not clear else "") + "CondCache", sc, nm,
                          cfg + "INIT Init\nNEXT Next\nVIEW View\nINVARIANT Coherent\nINVARIANT MatrixCurrent\n",
                          dict(workers=4, coverage=clear, timeout=1800)))
         for nm, inpl in (("ST_heap", False), ("ST_negheap", True)):
-            sc.write(nm + ".tla", '---- MODULE %s ----\nEXTENDS Alias\nMcNames == {"field", "f2"}\n====\n' % nm)
-            c = ("CONSTANTS\n Names <- McNames\n MaxBuf = 4\n HasPipeline = TRUE\n InPlacePipeline = %s\nINIT Init\nNEXT Next\n"
-                 "INVARIANT EarlierResultsStable\nPROPERTY NoForeignWrite\n" % ("TRUE" if inpl else "FALSE"))
+            sc.write(nm + ".tla", '---- MODULE %s ----\nEXTENDS Alias\nMcNames == {"field", "f2"}\nMcKinds == {"function", "zinnharvey"}\n'
+                                  'McNormalKinds == {"zinnharvey"}\n====\n' % nm)
+            c = ("CONSTANTS\n Names <- McNames\n TKinds <- McKinds\n NormalKinds <- McNormalKinds\n MaxBuf = 4\n HasPipeline = TRUE\n NormalField = FALSE\n"
+                 " InPlacePipeline = %s\nINIT Init\nNEXT Next\nINVARIANT EarlierResultsStable\nPROPERTY NoForeignWrite\n" % ("TRUE" if inpl else "FALSE"))
             jobs.append((("NEG " if inpl else "") + "Alias", sc, nm, c, dict(workers=4, coverage=not inpl, timeout=1800)))
+        from . import fieldstore
+        mod, cfg = fieldstore.mc_text("ST_fs", "mid")
+        sc.write("ST_fs.tla", mod)
+        jobs.append(("FieldStore", sc, "ST_fs", cfg + fieldstore.PROPS, dict(workers=4, coverage=True, timeout=1800)))
+        mod, cfg = generator.mc_text("ST_negrefused", "Fourier", 2, "mcquick", refused_atomic=False)
+        sc.write("ST_negrefused.tla", mod)
+        jobs.append(("NEG Generator(Fourier, refused update not atomic)", sc, "ST_negrefused", generator.cfg_mc(cfg), dict(workers=2, timeout=1800)))
         res = tlc.run_many(jobs, parallel=4)
         for name, r in res.items():
             tlc.must_pass(r, name)
